@@ -14,7 +14,7 @@ prop = Prop(
         "programs as in C05 (source/map/zip/scatter/gather/cross-product/cond/loop/schedule+execute, <= 12 blocks) run by StreamFlowExecutor "
         "under a drawn schedule; sub-check no-failure: no fault, optionally some leaf streams left unconnected to any workflow "
         "output (dangling steps); sub-check with-failure: 1..2 faults (a job's command fails or raises, a transformer raises, a "
-        "conditional raises) with the default (non-recovering) failure manager. Non-trivial = >= 3 steps and a non-empty "
+        "conditional raises, a loop body raises at a drawn iteration) with the default (non-recovering) failure manager. Non-trivial = >= 3 steps and a non-empty "
         "schedule (no-failure), resp. a fault that the reference run reaches (with-failure); distinct by the whole case."
     ),
     level_text="Random search; a hang is decided exactly by the deterministic loop (quiescent loop with unfinished executor), never by a timeout.",
@@ -31,6 +31,7 @@ nofail_case = st.fixed_dictionaries(
         "schedule": progs.schedule_strategy,
         # indices (mod #leaf streams) of leaf streams NOT registered as workflow outputs; [] in 2/3 of the cases
         "dangling": st.one_of(st.just([]), st.just([]), st.lists(st.integers(0, 7), min_size=1, max_size=2)),
+        "durations": progs.durations_strategy,
     }
 )
 
@@ -77,7 +78,7 @@ async def check_nofail(case, rec):
     dangling = sorted({leaves[i % len(leaves)] for i in case["dangling"]})
     if len(dangling) >= len(leaves):
         dangling = dangling[:-1]  # a workflow keeps at least one output
-    r = await run_program(case["prog"], case["schedule"], dangling=dangling)
+    r = await run_program(case["prog"], case["schedule"], dangling=dangling, durations=case.get("durations"))
     if r.outcome != "returned":
         kind = "C04:valid-workflow-raised"
         if dangling:
@@ -102,6 +103,7 @@ fail_case = st.fixed_dictionaries(
         "prog": progs.program_strategy(ops=ALL_OPS),
         "schedule": progs.schedule_strategy,
         "faults": st.lists(fault, min_size=1, max_size=2),
+        "durations": progs.durations_strategy,
     }
 )
 
@@ -113,7 +115,7 @@ async def check_fail(case, rec):
 
     blocks, streams = progs.analyse(case["prog"])
     ref = progs.interpret(blocks)
-    cands = [n for n, b in enumerate(blocks) if b["op"] in ("map", "zip", "cond", "exec")]
+    cands = [n for n, b in enumerate(blocks) if b["op"] in ("map", "zip", "cond", "exec", "loop")]
     faults: dict[str, list[str]] = {}
     fail_plan: dict[str, dict[str, int]] = {}
     mode = "status"
@@ -124,7 +126,11 @@ async def check_fail(case, rec):
         n = cands[bi % len(cands)]
         b = blocks[n]
         # the tags the block processes in a failure-free run = tags of its output stream
-        tags = sorted(ref[b["out"]], key=progs.tag_key)
+        # (loop: the body processes tag <instance>.<i> for every iteration i below the instance's bound)
+        if b["op"] == "loop":
+            tags = [f"{t}.{i}" for t, v in sorted(ref[b["src"]].items(), key=lambda kv: progs.tag_key(kv[0])) for i in range(progs.loop_bound(v, b["m"]))]
+        else:
+            tags = sorted(ref[b["out"]], key=progs.tag_key)
         if not tags:
             continue
         tag = tags[ti % len(tags)]
@@ -134,7 +140,7 @@ async def check_fail(case, rec):
             mode = kind
         else:
             faults.setdefault(str(n), []).append(tag)
-    r = await run_program(case["prog"], case["schedule"], faults=faults, fail_plan=fail_plan, fail_mode=mode)
+    r = await run_program(case["prog"], case["schedule"], faults=faults, fail_plan=fail_plan, fail_mode=mode, durations=case.get("durations"))
     if reached:
         if r.outcome != "raised":
             raise Violation("C04:failure-not-raised", f"faults {reached} were injected but the executor returned {r.result}; blocks={blocks}")
